@@ -4,18 +4,22 @@
 (* observed Rust type and emitted literal must be allowed by IntWidth.     *)
 EXTENDS TraceLib, FiniteSets
 
-VARIABLES l, lo, hi, ext, pos, phase, ty, form, val
+CONSTANT Ops
+VARIABLES l, lo, hi, ext, pos, phase, ty, form, val, op, lo2, hi2
 
 W == INSTANCE IntWidth
 
 Judge(e, i) ==
     IF e.status # "ok" THEN Report(i, "SKIP", e.status)
     ELSE
+      LET plo == W!PermLo(e.op, e.lo, e.hi, e.lo2, e.hi2, e.ext)
+          phi == W!PermHi(e.op, e.lo, e.hi, e.lo2, e.hi2, e.ext)
+      IN
       CASE e.ty \notin W!Types ->
              Report(i, "MISMATCH", "integer position is not typed by one of u8..i64/Integer")
-        [] ~ W!Fits(e.ty, e.lo, e.hi) ->
+        [] ~ W!Fits(e.ty, plo, phi) ->
              Report(i, "MISMATCH", "the chosen Rust integer type cannot hold every permitted value")
-        [] e.ty \in W!Fixed /\ (e.ext \/ ~ W!Finite(e.lo) \/ ~ W!Finite(e.hi)) ->
+        [] e.ty \in W!Fixed /\ (~ W!Finite(plo) \/ ~ W!Finite(phi)) ->
              Report(i, "MISMATCH", "fixed-width type although the constraint is extensible or has an infinite bound")
         [] e.pos \in W!ValuePositions /\ ~ e.haslit ->
              Report(i, "MISMATCH", "no constant / default function generated for the value")
@@ -31,9 +35,9 @@ Step == /\ l <= Len(Rec)
         /\ Rec[l].ev = "int"
         /\ Judge(Rec[l], l)
         /\ l' = l + 1
-        /\ UNCHANGED <<lo, hi, ext, pos, phase, ty, form, val>>
+        /\ UNCHANGED <<lo, hi, ext, pos, phase, ty, form, val, op, lo2, hi2>>
 
-Spec == Init /\ [][Step]_<<l, lo, hi, ext, pos, phase, ty, form, val>>
+Spec == Init /\ [][Step]_<<l, lo, hi, ext, pos, phase, ty, form, val, op, lo2, hi2>>
 
 Accepted == AllConsumed
 =============================================================================
